@@ -68,12 +68,13 @@ Theorem C04_modified_LLt n m kq p p1 (Kxu : 'M[F]_(n, m)) (Kuu : 'M[F]_m) (s j :
   let Winv := eigV p W *m diagv (\col_i (eigS p W i 0)^-1) *m (eigV p W)^T in
   let Mi := R *m eigV p W *m diagv (\col_i (eigS p W i 0)^-1) *m (R *m eigV p W)^T in
   let L := modified_low_rank kq p p1 Kxu Kuu rank s j in
+  kq = minn n m ->                            (* reduced QR *)
   (p <= m)%N -> (p1 <= \rank Mi)%N ->      (* at most #(positive eigenvalues) pairs are kept: C10 *)
   [/\ L *m L^T = Q *m (eigV p1 Mi *m diagv (eigS p1 Mi) *m (eigV p1 Mi)^T) *m Q^T,
       Mi = R *m Winv *m R^T,
       Q *m Mi *m Q^T = Kxu *m Winv *m Kxu^T
     & psd (Q *m Mi *m Q^T - L *m L^T)].
-Proof. by move=> sK pK j0 W Q R Winv Mi L pm p1r; apply: modified_LLt. Qed.
+Proof. by move=> sK pK j0 W Q R Winv Mi L kqm pm p1r; apply: modified_LLt. Qed.
 
 (* never above K: with the joint Gram matrix of inducing points and cells positive
    semi-definite (kernel_psd hypothesis), K_xx - K_xu (K_uu + j' I)^-1 K_ux >= 0,
